@@ -50,6 +50,24 @@ fn check_one(b: [u8; 4], p: &mut Part) -> Option<[u8; 3]> {
             return None;
         },
     };
+    // the same four bytes from a stream that hands them over in pieces (BinRead is public and generic over the stream)
+    {
+        let max = 1 + (b[0] as usize + b[3] as usize) % 3;
+        let mut rd = crate::ioadapt::ChunkReader::new(&b, max);
+        let pieces = guarded(|| Vehicle::read_le(&mut rd).map_err(|e| e.to_string()));
+        let same = match (&pieces, &r) {
+            (Ok(Ok(x)), Ok(y)) => x == y,
+            (Ok(Err(_)), Err(_)) => true,
+            _ => false,
+        };
+        if !same {
+            p.violation(
+                "C13/chunked-reader-differs",
+                format!("{} decodes to {:?} from a slice but to {:?} from a reader that returns {max} byte(s) per call", hex(&b), r, pieces),
+                json!({"bytes": hex(&b), "bytes_per_read": max}),
+            );
+        }
+    }
     let mut accepted = None;
     match (shape, &r) {
         (Shape::Unknown, Ok(Vehicle::Unknown)) => {},
@@ -92,6 +110,17 @@ fn check_one(b: [u8; 4], p: &mut Part) -> Option<[u8; 3]> {
                 format!("{} ({:?}-shaped) decoded to {:?} with is_mod()={} is_builtin()={}", hex(&b), shape, v, v.is_mod(), v.is_builtin()),
                 json!({"bytes": hex(&b)}),
             );
+        }
+        {
+            let mut sink = crate::ioadapt::ShortSink::new(1 + b[1] as usize % 3);
+            match guarded(|| v.write_le(&mut sink).map_err(|e| e.to_string())) {
+                Ok(Ok(())) if sink.inner.get_ref()[..] == b => {},
+                other => p.violation(
+                    "C13/short-writer-differs",
+                    format!("{:?} (decoded from {}) written into a writer that takes a few bytes per call gives {} ({:?})", v, hex(&b), hex(sink.inner.get_ref()), other),
+                    json!({"bytes": hex(&b)}),
+                ),
+            }
         }
         match guarded(|| encode(v)) {
             Ok(Ok(w)) if w == b => {},
